@@ -1174,7 +1174,7 @@ theorem extracted_split (D : Nat → Row) (Q : Clu → Prop) (hQ : QOK D Q) (st 
     (rows : List Row) (start : Nat) (hD : ∀ i (hi : i < rows.length), D (start + i) = rows[i])
     (groups : List (W × List Clu)) (h : refineGroups st.sortedClus 1 rows start = .ok groups) :
     Extracted Q st.lclusM groups := by
-  obtain ⟨_, singles, hflat, hids, hsing⟩ := refineGroups_spec _ _ _ _ _ h
+  obtain ⟨_, singles, hflat, hids, hsing⟩ := refineGroups_spec _ _ _ _ false _ h
   refine extracted_refined D Q hQ st hok groups singles 1 (refineGroups_ok' h) hflat hids ?_
   intro u hu
   obtain ⟨id, r, hle, hr, rfl⟩ := hsing u hu
